@@ -35,3 +35,29 @@ func VerifH15Shift() {
 	// the source is unchanged (C03)
 	verifAssert(b.Contains(x) == verifOr(verifAnd(x>>16 == 0, s0.has(uint16(x))), verifAnd(x>>16 == k1, s1.has(uint16(x)))), "Shift(1): source unchanged")
 }
+
+// H15b: the carry into a container that is exactly at the array size limit
+// (4096 values): adding the carried bit converts the array to a bitmap.
+func VerifH15ShiftFullArray() {
+	b := NewBitmap()
+	if verifChoice("carry", 2) == 1 {
+		b.DirectAdd(65535) // last value of container 0: carries into container 1
+	}
+	// container 1: 4096 values 1, 3, 5, ... (shifted: 2, 4, ...; 0 stays free)
+	n := verifBound("arraylen", 4096)
+	for i := 0; i < n; i++ {
+		b.DirectAdd(1<<16 | uint64(2*i+1))
+	}
+	carried := b.Contains(65535)
+	out, err := b.Shift(1)
+	verifReach("full array shifted")
+	verifAssert(err == nil, "Shift(1): no error")
+	if err != nil {
+		return
+	}
+	verifAssert(out.Contains(1<<16) == carried, "the bit carried into a full array container is present")
+	k := verifChoice("probe", 3)
+	x := 1<<16 | uint64(2*[]int{0, n / 2, n - 1}[k]+1)
+	verifAssert(out.Contains(x+1) && !out.Contains(x), "the array's own values moved up by one")
+	verifAssert(out.Count() == b.Count(), "Shift(1): count preserved")
+}
